@@ -187,6 +187,8 @@ func (c *context) logPackageError(perr error) bool {
 	}
 
 	if pkgError.Kind == packages.ListError {
+		// Errors reported by "go list" carry no usable position.
+		c.Errs.GeneralErrorf("%v", pkgError.Msg)
 		return true
 	}
 
